@@ -21,6 +21,8 @@ RULE = ("histories add*/list(sorter) on Sorter and MafSorter through the public 
         "contig list (same names ranked differently, names left out -> the add must raise ValueError, no list); "
         "two or three sorters ALIVE at the same time in one interpreter sharing the temporary directory, their adds and "
         "iterations interleaved; callers that re-use ONE record object (MafRecord, or a mutable item of the generic "
+        "sorter) or add/remove a column of the FIRST record after handing it over (before and after the first spill; inferred-names codec included) - "
+        "callers of the first kind use ONE record object (MafRecord, or a mutable item of the generic "
         "sorter) and edit it in place between adds - the oracle compares with the texts as they were at hand-over; about half of the cases iterate through the other public entry points (next() by hand and beyond "
         "exhaustion, a partial iteration followed by a fresh iter(), _MergingIterator/_SortedIterator driven directly "
         "over the sorter's spill files through __iter__/next()/__next__/peek_key/has_next/close, also closed early). Streams: valid, single-defect (one raising item), boundary (n multiple of cap, n=0, "
@@ -335,6 +337,7 @@ def _gen_maf(rng, stream):
             "codec": rng.choice(["scheme", "names", "inferred", "gdc"]), "breaks": rng.random() < 0.3,
             "order": rng.choice(["Coordinate", "BarcodesAndCoordinate"]), "contigs": rng.random() < 0.5,
             "api": rng.choice(["MafSorter", "Sorter"]), "keys": keys,
+            "edit_first": rng.choice([None, None, None, "add", "del"]), "edit_at": rng.randint(1, max(1, n)),
             "ops": _ops(items, rng.random() < 0.5, []), "alt": _alt(rng, n)}
 
 
@@ -352,6 +355,7 @@ def _gen_reuse(rng, stream):
                 o[2] = n
                 n += 1
     c["reuse"] = True
+    c["edit_first"] = None
     c["stream"] = stream
     return c
 
@@ -504,6 +508,12 @@ def corpus():
          "contigs": False, "api": "MafSorter",
          "keys": [["123", "N1", "chr1", 5, 5], ["45", "N1", "chr1", 5, 5], ["TB-A", "7", "chr2", 1, 1], ["9", "10", "chr1", 1, 2]],
          "ops": _ops([[0, 0, 0], [1, 1, 0], [2, 2, 0], [3, 3, 0], [1, 4, 0]], True, []), "alt": {"cap": 4, "always": False, "seed": 3}},
+        # pinned tree before 22d153c: an inferred-names codec kept record.keys(), a live view of the FIRST record;
+        # the caller adding / removing a column of that record after hand-over (before the first spill, and after
+        # it) made the other records fail to re-parse
+        dict(_maf_session(None, "Coordinate"), cap=4, codec="inferred", edit_first="add", edit_at=1),
+        dict(_maf_session(None, "Coordinate"), cap=2, codec="inferred", edit_first="del", edit_at=3),
+        dict(_maf_session(None, "BarcodesAndCoordinate"), cap=3, codec="inferred", always=False, edit_first="add", edit_at=5),
         # the cursor classes through their own methods (next() aliases, __iter__, beyond exhaustion, closed early)
         {"stream": "corpus", "flavour": "t/int", "cap": 2, "always": True, "off": 0, "iter_style": "classes",
          "ops": _ops([[3, 0, 0], [1, 1, 0], [2, 2, 0], [1, 3, 0], [0, 4, 0]], True, []), "alt": alt},
@@ -636,6 +646,8 @@ class _Hist:
         self.steps, self.details = [], []
         self.added = []          # [rank, id, text, values] of every item handed over, as it was at hand-over
         self.shared = None       # the ONE object a re-using caller fills again and again
+        self.first = None        # the first record handed over (the caller may go on editing it)
+        self.nadd = 0
 
     def _maf_obj(self, k, i):
         fresh = maf_record(self.case, k, i, self.scheme)
@@ -665,9 +677,22 @@ class _Hist:
             exc = None
             try:
                 if fl == "maf":
+                    if case.get("edit_first") and self.first is not None and self.nadd == case.get("edit_at", 1):
+                        # the caller adds or removes a column of the FIRST record after having handed it over
+                        try:
+                            if case["edit_first"] == "add":
+                                from maflib.column import MafColumnRecord
+                                self.first["Extra"] = MafColumnRecord(key="Extra", value="x")
+                            else:
+                                del self.first[names_of(case)[-1]]
+                        except Exception:  # noqa: BLE001
+                            pass
                     obj = self._maf_obj(o[1], o[2])
                     text, vals = str(obj), [repr(v) for v in obj.column_values()]
+                    self.nadd += 1
                     sorter += obj
+                    if self.first is None:
+                        self.first = obj
                     added.append([self.ranks[o[1]], o[2], text, vals])
                 else:
                     obj = self._gen_obj(o)
@@ -694,6 +719,8 @@ class _Hist:
                     try:
                         part.append(next(it))
                     except StopIteration:
+                        break
+                    except Exception:  # noqa: BLE001   the fresh iteration below meets the same record again
                         break
                 del it
                 for r in sorter:
@@ -993,6 +1020,7 @@ def classify(case, obs):
         return "%s/sessions=%d/%s" % (case["stream"], len(case["sessions"]), "+".join(kinds))
     n = sum(1 for o in case["ops"] if o[0] == "add")
     fl = ((case["flavour"] if case["flavour"] != "maf" else "maf/" + case["codec"]) + ("/reuse" if case.get("reuse") else "")
+          + ("/edit-first-" + case["edit_first"] if case.get("edit_first") else "")
           + ("/" + case["iter_style"] if case.get("iter_style") else ""))
     if obs is None:
         return "%s/%s/error" % (case["stream"], fl)
